@@ -164,7 +164,7 @@ type qres struct {
 	Snap    *middleware.RecursionWorkSnapshot // only when the harness owns the ledger
 	EnfErr  bool                              // harness-owned ledger latched a rejection
 	Touched int                               // scripted servers that received at least one packet
-	TrustQs int                               // distinct DS / DNSKEY questions that reached an upstream
+	TrustQs int                               // distinct sub-query questions (see subQuestions) that reached an upstream
 	FBPkts  int64                             // packets the failover fallback server received
 	Latched int                               // kind+1 of the rejection latched when Chain.Next returned (0 = none)
 }
@@ -201,6 +201,12 @@ func settle(w *l3.World) (udp, tcp, conns int64) {
 // be read back); own=false is the plain path where the outer Chain creates and
 // finishes the ledger itself.
 func (sp *sysPipe) query(name string, qtype uint16, edns, do bool, client string, own bool) qres {
+	return sp.queryWith(name, qtype, edns, do, client, own, nil)
+}
+
+// queryWith: with a non-nil policy the harness-owned ledger is created under that policy instead of
+// the pipeline's (warm-up queries that must not be cut short by the budget under test).
+func (sp *sysPipe) queryWith(name string, qtype uint16, edns, do bool, client string, own bool, policy *middleware.RecursionWorkPolicy) qres {
 	req := new(dns.Msg)
 	req.SetQuestion(dns.Fqdn(name), qtype)
 	sp.nextID += 7919
@@ -217,7 +223,10 @@ func (sp *sysPipe) query(name string, qtype uint16, edns, do bool, client string
 	for i, s := range sp.T.W.Servers {
 		before[i] = s.UDPQueries.Load() + s.TCPQueries.Load()
 	}
-	trustBefore := trustQuestions(sp.T.W)
+	logFrom := make([]int, len(sp.T.W.Servers))
+	for i, s := range sp.T.W.Servers {
+		logFrom[i] = len(s.Log)
+	}
 	var fb0 int64
 	if sp.T.Fallback != nil {
 		fb0 = sp.T.Fallback.UDPQueries.Load() + sp.T.Fallback.TCPQueries.Load()
@@ -240,7 +249,11 @@ func (sp *sysPipe) query(name string, qtype uint16, edns, do bool, client string
 	var ledger *middleware.RecursionWorkLedger
 	if own {
 		ctx = middleware.WithResponseMeta(ctx, new(middleware.ResponseMeta))
-		ctx, ledger = middleware.EnsureRecursionWork(ctx, sp.Policy)
+		pol := sp.Policy
+		if policy != nil {
+			pol = *policy
+		}
+		ctx, ledger = middleware.EnsureRecursionWork(ctx, pol)
 	}
 	start := time.Now()
 	ch.Next(ctx)
@@ -264,11 +277,7 @@ func (sp *sysPipe) query(name string, qtype uint16, edns, do bool, client string
 			out.Touched++
 		}
 	}
-	for q := range trustQuestions(sp.T.W) {
-		if !trustBefore[q] {
-			out.TrustQs++
-		}
-	}
+	out.TrustQs = len(subQuestions(sp.T.W, name, logFrom)) // asked during this query
 	if sp.T.Fallback != nil {
 		out.FBPkts = sp.T.Fallback.UDPQueries.Load() + sp.T.Fallback.TCPQueries.Load() - fb0
 	}
@@ -280,16 +289,50 @@ func (sp *sysPipe) query(name string, qtype uint16, edns, do bool, client string
 	return out
 }
 
-// trustQuestions: the distinct DS / DNSKEY questions the scripted servers have been asked so far
-// (every one of them is a chain-of-trust sub-lookup of the resolver: no client asks for them here).
-func trustQuestions(w *l3.World) map[string]bool {
-	out := map[string]bool{}
-	for _, s := range w.Servers {
-		for _, ln := range s.Log {
+// subQuestions: the distinct questions the scripted servers have been asked so far that cannot be
+// part of the client question's own walk: DS / DNSKEY questions, and questions for a name that is
+// neither the client's name nor one of its ancestors (minimised probes are ancestors). Every one of
+// them was asked on behalf of an internal sub-query (nameserver address, chain of trust, alias
+// target). Names that are proper ancestors of another such question of the same type are dropped:
+// they may be that sub-query's own minimised probes.
+func subQuestions(w *l3.World, client string, from []int) map[string]bool {
+	client = strings.ToLower(dns.Fqdn(client))
+	type q struct{ name, typ string }
+	var all []q
+	seen := map[string]bool{}
+	for i, s := range w.Servers {
+		start := 0
+		if i < len(from) {
+			start = from[i]
+		}
+		if start > len(s.Log) {
+			start = len(s.Log)
+		}
+		for _, ln := range s.Log[start:] {
 			f := strings.Fields(ln)
-			if len(f) == 3 && (f[2] == "43" || f[2] == "48") {
-				out[f[1]+"/"+f[2]] = true
+			if len(f) != 3 || seen[f[1]+"/"+f[2]] {
+				continue
 			}
+			seen[f[1]+"/"+f[2]] = true
+			trust := f[2] == "43" || f[2] == "48"
+			if !trust && dns.IsSubDomain(f[1], client) {
+				continue // the client's name or an ancestor of it
+			}
+			all = append(all, q{f[1], f[2]})
+		}
+	}
+	out := map[string]bool{}
+	for _, a := range all {
+		leaf := true
+		if a.typ != "43" && a.typ != "48" {
+			for _, b := range all {
+				if b.typ == a.typ && b.name != a.name && dns.IsSubDomain(a.name, b.name) {
+					leaf = false
+				}
+			}
+		}
+		if leaf {
+			out[a.name+"/"+a.typ] = true
 		}
 	}
 	return out
